@@ -77,6 +77,15 @@ def full_menu():
         out += wrappers(n)
     out += list(L.layer_A(L.LEAVES[4], maxdepth=1))
     out += special_rows()
+    # the simplifier alphabet (every tree of <= 4 nodes over + - * / ** neg and the leaves 0, 1, 2, -1, 0.5, x, y, p)
+    # and nested constant powers (the derivative helpers simplify powers, products and sums of sub-derivatives)
+    from mc.interp import var_names as _vn
+
+    out += [r for r in L.layer_B(4) if r[0] != "c" and _vn(r)]
+    pw = lambda a, k: ("bin", "**", a, ("c", k))  # noqa: E731
+    out += [pw(pw(X, 2), 1.5), pw(pw(X, 2), 0.5), pw(pw(("bin", "*", X, Y), 2), 1.5), pw(pw(X, 2), -0.5),
+            pw(pw(("bin", "+", X, Y), 2), 0.5), pw(pw(X, 3), 2), pw(pw(X, 0.5), 2), pw(pw(Y, 4), 0.25),
+            ("sum", ("vbin", "**", ("vbin", "**", ("vbin", "*", V3, ("c", 2)), ("c", 2)), ("c", 1.5)))]
     return out
 
 
